@@ -40,14 +40,42 @@ def is_proc_type(ct):
     return v == 'application/x-www-form-urlencoded' or v.split('/', 1)[0] == 'multipart'
 
 
+def q_param(text):
+    """a quoted-string parameter as curl / requests / urllib3 write it: '"' is sent as backslash-quote (the generator
+    produces no backslashes: parse_header's handling of those is outside the modelled subset and the property text)"""
+    return text.replace('"', '\\"').encode('latin-1')
+
+
+def comma_split_defect(p):
+    """httputil.RE_HEADER_SPLIT takes a comma for an element separator when an even number of double quotes follows
+    it, counting the quote of a backslash-quote pair: a comma inside the quoted name/filename followed by an odd
+    number of escaped quotes is (wrongly) split at (recorded finding)"""
+    if p['name'] is None and p['filename'] is None:
+        return False
+    line = std_headers({'name': p['name'], 'filename': p['filename'], 'ct': None}).split(b'\r\n')[0]
+    inq = False
+    i = 0
+    while i < len(line):
+        ch = line[i:i + 1]
+        if ch == b'\\' and inq:
+            i += 2
+            continue
+        if ch == b'"':
+            inq = not inq
+        elif ch == b',' and inq and line[i + 1:].count(b'"') % 2 == 0:
+            return True
+        i += 1
+    return False
+
+
 def std_headers(p):
     out = b''
     if p['name'] is not None or p['filename'] is not None:
         out += b'Content-Disposition: form-data'
         if p['name'] is not None:
-            out += b'; name="' + p['name'].encode('latin-1') + b'"'
+            out += b'; name="' + q_param(p['name']) + b'"'
         if p['filename'] is not None:
-            out += b'; filename="' + p['filename'].encode('latin-1') + b'"'
+            out += b'; filename="' + q_param(p['filename']) + b'"'
         out += b'\r\n'
     if p['ct'] is not None:
         out += b'Content-Type: ' + p['ct'].encode('latin-1') + b'\r\n'
@@ -223,6 +251,9 @@ class C04(core.Check):
             return rng.choice(['a', 'b', 'c', 'file', 'parts', 'x y', 'n1'])
         if r < .62:
             return ''
+        if r < .67:
+            # quotes inside the quoted string, with the separators of the parameter list around them
+            return rng.choice(['5" floppy; backup.img', 'a"b', 'say "hi"; then', '";"', ';"', '"', 'x"; name="y', '""; filename=z'])
         n = rng.randrange(1, 9)
         alphabet = [chr(i) for i in range(32, 256) if chr(i) not in '"\\'] + ['\t', '\x0b', '\x1f', '\x00']
         return ''.join(rng.choice(alphabet) for _ in range(n))
@@ -391,7 +422,7 @@ class C04(core.Check):
         for p in c['parts']:
             if p['name'] is None or p['filename'] is not None:
                 continue
-            n = p['name'].encode('latin-1')
+            n = q_param(p['name'])
             v = rng.choice(self.HDR_VARIANTS)
             h = v(n, None, None)
             if rng.random() < .3 and re.fullmatch(r'[a-z0-9]+', p['name']):
@@ -556,7 +587,12 @@ class C04(core.Check):
             return 'model driver: %s' % mo[:80]
         st, m_params, m_kept, m_taken, m_done, m_pr = mo
         if m_pr != [] and m_pr != 1:
-            return 'encode_mp (Coq printer) differs from the generator\'s body'
+            if any('"' in (p[k] or '') for p in c['parts'] for k in ('name', 'filename')):
+                # encode_mp prints header-safe names only (no double quote, no backslash: the subset the
+                # round-trip statement is about); the sender's backslash-quote form is outside it
+                self.count('printer-tie-skipped(name with a double quote)')
+            else:
+                return 'encode_mp (Coq printer) differs from the generator\'s body'
         if st in (4, 5):
             self.count('model-abstains:%d' % st)
             return None
@@ -624,9 +660,14 @@ class C04(core.Check):
             return []
         fails = []
         pre = {'lenient': 'lf-delimiter:', 'proc': 'part-entity-processor:'}.get(cls, '')
+        bad_split = any(comma_split_defect(p) for p in c['parts'])
 
         def fail(sig, what):
-            if cls == 'lenient':
+            if bad_split:
+                fails.append(('header_elements:comma-split-ignores-escaped-quote',
+                              'a Content-Disposition with a comma inside a quoted parameter and a backslash-quote '
+                              'after it is split at that comma: ' + what))
+            elif cls == 'lenient':
                 fails.append(('read_lines_to_boundary:lf-only-delimiter-line',
                               'content with a line "--boundary" after a bare LF (no CRLF--boundary inside): ' + what))
             elif cls == 'proc':
